@@ -7,21 +7,21 @@ use std::collections::HashMap;
 use std::fmt;
 use std::sync::Arc;
 
-use crate::dfa::Dfa;
+use crate::dfa::{Cell, Dfa};
 
 #[derive(Debug)]
 pub enum Ast {
     Empty,
     Eps,
     /// one-letter strings whose letter lies in cells lo..=hi
-    Cells(u8, u8),
+    Cells(Cell, Cell),
     Concat(Arc<Ast>, Arc<Ast>),
     Loop(Arc<Ast>, u32, Option<u32>),
     Compl(Arc<Ast>),
     Union(Vec<Arc<Ast>>),
     Inter(Vec<Arc<Ast>>),
     /// left quotient by one cell: { w | c.w in L(t) }
-    Quot(Arc<Ast>, u8),
+    Quot(Arc<Ast>, Cell),
 }
 
 pub type A = Arc<Ast>;
@@ -32,7 +32,7 @@ pub fn empty() -> A {
 pub fn eps() -> A {
     Arc::new(Ast::Eps)
 }
-pub fn cells(lo: u8, hi: u8) -> A {
+pub fn cells(lo: Cell, hi: Cell) -> A {
     Arc::new(Ast::Cells(lo, hi))
 }
 pub fn concat(a: &A, b: &A) -> A {
@@ -57,7 +57,7 @@ pub fn union(v: Vec<A>) -> A {
 pub fn inter(v: Vec<A>) -> A {
     Arc::new(Ast::Inter(v))
 }
-pub fn quot(a: &A, c: u8) -> A {
+pub fn quot(a: &A, c: Cell) -> A {
     Arc::new(Ast::Quot(a.clone(), c))
 }
 pub fn full() -> A {
@@ -115,15 +115,22 @@ impl fmt::Display for Ast {
 
 /// Definitional matcher for one fixed string.
 pub struct Matcher {
-    w: Vec<u8>,
+    w: Vec<Cell>,
     memo: HashMap<(usize, u16, u16), bool>,
+    /// remaining work (sub-problems); when it runs out the answer is "unknown"
+    budget: u64,
+    pub exhausted: bool,
 }
 
+pub const MATCH_BUDGET: u64 = 400_000;
+
 impl Matcher {
-    pub fn new(w: &[u8]) -> Matcher {
+    pub fn new(w: &[Cell]) -> Matcher {
         Matcher {
             w: w.to_vec(),
             memo: HashMap::new(),
+            budget: MATCH_BUDGET,
+            exhausted: false,
         }
     }
 
@@ -137,6 +144,11 @@ impl Matcher {
         if let Some(&r) = self.memo.get(&key) {
             return r;
         }
+        if self.budget == 0 {
+            self.exhausted = true;
+            return false;
+        }
+        self.budget -= 1;
         let r = self.compute(t, i, j);
         self.memo.insert(key, r);
         r
@@ -149,6 +161,9 @@ impl Matcher {
             Ast::Cells(lo, hi) => j == i + 1 && *lo <= self.w[i] && self.w[i] <= *hi,
             Ast::Concat(a, b) => {
                 for m in i..=j {
+                    if self.exhausted {
+                        return false;
+                    }
                     if self.m(a, i, m) && self.m(b, m, j) {
                         return true;
                     }
@@ -176,7 +191,14 @@ impl Matcher {
                 let mut s = Vec::with_capacity(j - i + 1);
                 s.push(*c);
                 s.extend_from_slice(&self.w[i..j]);
-                Matcher::new(&s).matches(a)
+                let mut sub = Matcher::new(&s);
+                sub.budget = self.budget;
+                let r = sub.matches(a);
+                self.budget = sub.budget;
+                if sub.exhausted {
+                    self.exhausted = true;
+                }
+                r
             }
             Ast::Loop(e, lo, hi) => {
                 let len = j - i;
@@ -202,6 +224,12 @@ impl Matcher {
                 while n <= direct_max {
                     let mut next = vec![false; len + 1];
                     for p in 0..=len {
+                        if self.budget < len as u64 {
+                            self.budget = 0;
+                            self.exhausted = true;
+                            return false;
+                        }
+                        self.budget -= p as u64 / 8 + 1;
                         for q in 0..=p {
                             if cur[q] && self.m(e, i + q, i + p) {
                                 next[p] = true;
@@ -231,8 +259,15 @@ impl Matcher {
     }
 }
 
-pub fn rmatch(t: &A, w: &[u8]) -> bool {
-    Matcher::new(w).matches(t)
+/// Some(answer), or None if the work budget ran out (long strings under nested operators)
+pub fn rmatch(t: &A, w: &[Cell]) -> Option<bool> {
+    let mut m = Matcher::new(w);
+    let r = m.matches(t);
+    if m.exhausted {
+        None
+    } else {
+        Some(r)
+    }
 }
 
 pub const COST_CAP: u64 = 3_000;
@@ -316,24 +351,24 @@ mod tests {
     fn loops() {
         let a = cells(0, 0);
         let l = looped(&a, 2, Some(3));
-        assert!(!rmatch(&l, &[0]));
-        assert!(rmatch(&l, &[0, 0]));
-        assert!(rmatch(&l, &[0, 0, 0]));
-        assert!(!rmatch(&l, &[0, 0, 0, 0]));
+        assert!(!rmatch(&l, &[0]).unwrap().unwrap());
+        assert!(rmatch(&l, &[0, 0]).unwrap());
+        assert!(rmatch(&l, &[0, 0, 0]).unwrap());
+        assert!(!rmatch(&l, &[0, 0, 0, 0]).unwrap());
         let big = looped(&a, 4_000_000_000, None);
-        assert!(!rmatch(&big, &[0, 0, 0]));
+        assert!(!rmatch(&big, &[0, 0, 0]).unwrap());
         let o = looped(&a, 0, Some(1));
         let bigo = looped(&o, 4_000_000_000, Some(4_000_000_001));
-        assert!(rmatch(&bigo, &[0, 0, 0]));
-        assert!(rmatch(&bigo, &[]));
-        assert!(!rmatch(&bigo, &[1]));
+        assert!(rmatch(&bigo, &[0, 0, 0]).unwrap());
+        assert!(rmatch(&bigo, &[]).unwrap());
+        assert!(!rmatch(&bigo, &[1]).unwrap());
         let e = empty();
-        assert!(rmatch(&looped(&e, 0, None), &[]));
-        assert!(!rmatch(&looped(&e, 1, None), &[]));
-        assert!(rmatch(&looped(&eps(), 5, Some(9)), &[]));
+        assert!(rmatch(&looped(&e, 0, None), &[]).unwrap());
+        assert!(!rmatch(&looped(&e, 1, None), &[]).unwrap());
+        assert!(rmatch(&looped(&eps(), 5, Some(9)), &[]).unwrap());
         let q = quot(&concat(&a, &cells(1, 1)), 0);
-        assert!(rmatch(&q, &[1]));
-        assert!(!rmatch(&q, &[0]));
+        assert!(rmatch(&q, &[1]).unwrap());
+        assert!(!rmatch(&q, &[0]).unwrap());
     }
 
     #[test]
@@ -353,11 +388,11 @@ mod tests {
             let mut memo = HashMap::new();
             let d = to_dfa(t, k, &mut memo).unwrap();
             let mut w = vec![];
-            fn rec(t: &A, d: &Dfa, w: &mut Vec<u8>, k: usize) {
-                assert_eq!(rmatch(t, w), d.accepts(w), "{} on {:?}", t, w);
+            fn rec(t: &A, d: &Dfa, w: &mut Vec<Cell>, k: usize) {
+                assert_eq!(rmatch(t, w).unwrap(), d.accepts(w), "{} on {:?}", t, w);
                 if w.len() < 5 {
                     for c in 0..k {
-                        w.push(c as u8);
+                        w.push(c as Cell);
                         rec(t, d, w, k);
                         w.pop();
                     }
